@@ -343,6 +343,79 @@ def check_job(job):
         out.append(dataflow_obligation(job, order))
     if job["kind"] == "pair":
         out.extend(corruption_obligations(job))
+        out.extend(constant_obligations(job))
+    return out
+
+
+def constant_obligations(job):
+    """Concrete (auxiliary tests, not solver claims): constants as port values.  An output constant drives the inputs;
+    equal constants on both sides connect without any driver; different constants, or a constant input facing a varying
+    output, raise ConnectionError."""
+    from amaranth.sim import Simulator
+    spec = job["spec"]
+    r = random.Random((hash(job["id"]) & 0xffff) + 7)
+    leaves = [(p, eff, shp) for p, eff, shp, init in ref_leaves(spec, False) if shp[0] in ("u", "s") and shp[1] > 0 and isinstance(p[-1], str)]
+    out = []
+    if not leaves:
+        return out
+    path, eff, shp = r.choice(leaves)
+    w, sgn = shp[1], shp[0] == "s"
+    lo = -(1 << w - 1) if sgn else 0
+    c1 = lo + r.randrange(1 << w)
+    c2 = lo + (c1 - lo + 1) % (1 << w)
+
+    def set_leaf(obj, value):
+        setattr(nav(obj, path[:-1]), path[-1], value)
+    for case in ("output constant", "equal constants", "different constants", "constant input, varying output"):
+        base = {"id": f"{job['id']}-const-{case.split()[0]}-{case.split()[-1]}", "kind": "constants as port values (concrete)", "nontrivial": False,
+                "program": job["text"] + f"  with {case} at {list(path)}",
+                "assertion": "an output constant drives the inputs; equal constants need no driver; mismatched constants or a constant input facing a varying output raise ConnectionError"}
+        try:
+            with warnings.catch_warnings():
+                warnings.simplefilter("ignore")
+                (_, p_obj, _), (_, q_obj, _) = make_objects(job)
+                out_obj, in_obj = (p_obj, q_obj) if eff == "out" else (q_obj, p_obj)
+                shape = Shape(w, sgn)
+                if case == "output constant":
+                    set_leaf(out_obj, Const(c1, shape))
+                elif case == "equal constants":
+                    set_leaf(out_obj, Const(c1, shape))
+                    set_leaf(in_obj, Const(c1, shape))
+                elif case == "different constants":
+                    set_leaf(out_obj, Const(c1, shape))
+                    set_leaf(in_obj, Const(c2, shape))
+                else:
+                    set_leaf(in_obj, Const(c1, shape))
+                m_ = Module()
+                try:
+                    connect(m_, p_obj, q_obj)
+                    raised = None
+                except wiring.ConnectionError as ex:
+                    raised = ex
+                want_error = case in ("different constants", "constant input, varying output")
+                problem = None
+                if want_error and raised is None:
+                    problem = "connect() accepted it"
+                elif not want_error and raised is not None:
+                    problem = f"connect() raised ConnectionError: {raised}"
+                elif case == "output constant":
+                    tgt = Value.cast(nav(in_obj, path))
+                    got = []
+                    with symsim.real_states():
+                        sim = Simulator(m_)
+
+                        async def tb(ctx):
+                            got.append(ctx.get(tgt))
+                        sim.add_testbench(tb)
+                        sim.run()
+                    if got != [c1]:
+                        problem = f"the input leaf reads {got}, the output constant is {c1}"
+        except Exception as ex:
+            problem = f"raised {type(ex).__name__}: {str(ex)[:200]}"
+        if problem:
+            out.append(dict(base, status=VIOLATION, detail=f"{base['program']}: {problem}", signature={"kind": "constants", "what": case}, replay={"job": job}))
+        else:
+            out.append(dict(base, status=PROVED))
     return out
 
 
@@ -546,8 +619,8 @@ def main(tier, seed):
                      "amaranth.sim._pyrtl compiled code of the statements connect() adds"]
     rep.bounds = {"signatures": len(jobs), "depth": "<= 3", "members_per_level": "<= 3", "dimensions": "<= 2 (sizes 0..2)", "port_width": "0..4, signed, struct and enum shapes",
                   "interfaces": "2 (3 for all-output signatures), all argument orders",
-                  "outside": "constants as port values, component metadata / JSON schema: structural facts with no value to quantify over (see DESIGN.md); the ConnectionError clause is only "
-                             "sampled concretely (one corruption of each kind per pair), which is a test, not a solver claim"}
+                  "outside": "component metadata / JSON schema: structural facts with no value to quantify over (see DESIGN.md); the ConnectionError and constant clauses are only "
+                             "sampled concretely (one corruption of each kind and four constant placements per pair), which is a test, not a solver claim"}
     rep.stubs = ["HSignalState", "if-converting interpreter"]
     rep.assumptions = []
     rep.rule = "hand-written corner signatures + seeded random signature trees; interface tuples by flipping signature or object; every argument order"
